@@ -11,7 +11,7 @@ import (
 type Position struct {
 	ID        string
 	Tmpl      string
-	InMapLoop bool // the form executes inside `range m`
+	InMapLoop bool   // the form executes inside `range m`
 	Method    string // "", "ptr", "val": the body is a method of S called through a wrapper
 }
 
